@@ -42,7 +42,7 @@ def make_stub_class():
             self.W = np.ones(nq)
 
         def default_parameters(self):
-            return {}
+            return dict(getattr(self, 'defaults', {}))
 
     return Stub
 
@@ -105,10 +105,10 @@ COQ_IMPORTS = ('From Coq Require Import List Arith Bool ZArith.\n'
                'Require Import Base.C01_Sums Model.C01_Assembly Model.C01_Trilinear Gen.C01Gen.')
 
 
-def py_form2(k):
+def py_form2(k, key='c'):
     def form(u, v, w):
-        return (k[0] * w['c'] * (u * v.grad[0]) + k[1] * (u.grad[0] * v) + k[2] * (u * v)
-                + k[3] * w['c'] * (u.grad[0] * v.grad[0]))
+        return (k[0] * w[key] * (u * v.grad[0]) + k[1] * (u.grad[0] * v) + k[2] * (u * v)
+                + k[3] * w[key] * (u.grad[0] * v.grad[0]))
     return form
 
 
@@ -119,15 +119,15 @@ def py_form3(k):
     return form
 
 
-def py_form1(k):
+def py_form1(k, key='c'):
     def form(v, w):
-        return k[0] * w['c'] * v + k[1] * v.grad[0] + k[2] * v
+        return k[0] * w[key] * v + k[1] * v.grad[0] + k[2] * v
     return form
 
 
-def py_form0(k):
+def py_form0(k, key='c'):
     def form(w):
-        return k[0] * w['c'] + k[1] * w['c'] * w['c'] + k[2]
+        return k[0] * w[key] + k[1] * w[key] * w[key] + k[2]
     return form
 
 
